@@ -44,7 +44,7 @@ ASSUMPTIONS = ['coordinates are exact integers in the geometry model; float roun
                'constitutionally distinct substituents, not proved']
 
 _state = {}
-KNOWN_CT_MAP = 'C12/written-configuration-differs/ring-closure-double-bond-in-conjugated-system'
+KNOWN_CT_MAP = 'C12/written-configuration-differs/conjugated-double-bonds-in-a-ring'
 
 
 def generate(ctx):
@@ -392,6 +392,7 @@ def correspond(ctx):
     stream_written(ctx)
     ctx.cov['programs'] += 2   # _smiles (canonical), __format__('r')
     stream_ring_double_bonds(ctx)
+    stream_polyenes(ctx)
     stream_nonstereogenic(ctx)
     stream_wedges(ctx)
     stream_wedge_model(ctx)
@@ -1278,12 +1279,27 @@ def judge_written(mol, out, order, ref_tet, ref_db):
             a, b = pos[key[0]], pos[key[1]]
             conj = any(m.orders.get(frozenset((z, w))) == '=' for t in (a, b) for z in m.nbrs[t] if z not in (a, b)
                        for w in m.nbrs[z] if w not in (a, b))
-            cls = ' [ring-closure double bond in a conjugated system]' if frozenset((a, b)) in m.ring_bonds and conj else ''
+            cls = ' [conjugated double bond in a ring]' if conj and mini_in_ring(m, a, b) else ''
             diffs.append(f'double bond {key}: written {db[key]} vs reference {ref}{cls}')
-    for key in db:
-        if key not in ref_db:
-            diffs.append(f'double bond {key}: marks written but none in the reference')
+    # marks around a double bond that carries no label are not judged: in a conjugated chain the single bonds next to it
+    # carry the marks of its labelled neighbours, and for a non-stereogenic bond they mean nothing
     return diffs
+
+
+def mini_in_ring(m, a, b):
+    """bond a-b of a MiniMol lies on a cycle"""
+    seen, st = {a}, [a]
+    while st:
+        x = st.pop()
+        for y in m.nbrs[x]:
+            if y is None or (x == a and y == b):
+                continue
+            if y == b:
+                return True
+            if y not in seen:
+                seen.add(y)
+                st.append(y)
+    return False
 
 
 # ================================================================================================
@@ -1387,7 +1403,7 @@ def judge_input(ctx, smi, ref_tet, ref_db, rng, k, tag, use_rdkit=True, kstream=
         except ValueError as e:
             ctx.notes.append(f'mini reader could not read chython output {out!r}: {e}')
             continue
-        if diffs and all('[ring-closure double bond in a conjugated system]' in d for d in diffs):
+        if diffs and all('[conjugated double bond in a ring]' in d for d in diffs):
             bad += 1
             ctx.fail(KNOWN_CT_MAP, f'{smi!r} written as {out!r} ({"random order" if fmt else "canonical"}): {diffs[:2]}',
                      {'kind': 'write-judge', 'smiles': smi})
@@ -1982,3 +1998,42 @@ def stream_parser(ctx):
             _state.setdefault('disagreements', []).extend(('reader_cis_trans_labels', {'kind': 'parser', 'smiles': b_[0]}) for b_ in bad[:50])
         else:
             ctx.sample({'stream': 'reader_cis_trans_labels', 'request': rc_req[0][0], 'real': rc_req[0][1], 'model': out[0]})
+
+
+# ---- R: conjugated double bonds (direction-mark propagation `__ct_map`) -------------------------------------------
+
+POLYENES = ['C(=CC=CC)C=CC=CF', 'CC=CC(C=CC)=CC=CC', 'FC=CC=CC=CC=CCl', 'CC=CC(=CC)C=CC', 'NC=CC=CC(O)C=CCl', 'FC=CC(Cl)=CC=CC',
+            'C1CCCCC=CCCC=CC1', 'C1CCCCCC=CCC=CC1', 'OC1CCCCCC=CCCC1C=CC=CF',
+            # macrocyclic conjugated systems: the known __ct_map finding lives here
+            'C1CCCCCC=CC=CC1', 'C1CCCCCCCC=CC=CC=C1', 'FC=CC=CC1=CC=CCCCCCC1', 'C1CCCCCC=C(C=CF)C=C1']
+
+
+def stream_polyenes(ctx):
+    """every E/Z isomer (enumerated by RDKit) of open-chain, cross-conjugated and macrocyclic polyenes: what chython writes
+    (canonical + random order) must denote the isomer that was read, judged by the independent reader and RDKit"""
+    from rdkit import Chem
+    from rdkit.Chem.EnumerateStereoisomers import EnumerateStereoisomers
+    for t in POLYENES:
+        isos = [Chem.MolToSmiles(i) for i in EnumerateStereoisomers(Chem.MolFromSmiles(t))]
+        if ctx.quick and len(isos) > 4:
+            isos = ctx.rng.sample(isos, 4)
+        for smi in isos:
+            if not in_domain(smi):
+                continue
+            from chython import smiles
+            mi = mini_read(smi)
+            mol = smiles(smi)
+            tet, db = mini_config(mi, list(range(1, len(mi.atoms) + 1)))
+            lab_db = set()
+            for n, m_, b in mol.bonds():
+                if b.stereo is not None and mol._stereo_cis_trans_terminals.get(n):
+                    lab_db.add(tuple(sorted(mol._stereo_cis_trans_terminals[n], key=str)))
+            # RDKit enumerates every potentially stereogenic bond: each must be labelled by chython as well
+            n_rd = sum(1 for b in Chem.MolFromSmiles(smi).GetBonds() if b.GetStereo() != Chem.BondStereo.STEREONONE)
+            if n_rd != len(lab_db):
+                ctx.fail('C12/stereogenic-double-bond-not-labelled/polyene:' + t,
+                         f'{smi!r}: RDKit sees {n_rd} specified double bonds, chython keeps {len(lab_db)} labels ({str(mol)!r})',
+                         {'kind': 'rdkit', 'smiles': smi})
+            db = {k: v for k, v in db.items() if k in lab_db}
+            ctx.dist('polyene-isomers')
+            judge_input(ctx, smi, tet, db, ctx.rng, 6 if ctx.quick else 40, 'polyene:' + t, use_rdkit=True)
